@@ -391,3 +391,60 @@ def validate_against_symtable(src):
             walk(m, q.pop(0))
     walk(root, top)
     return problems
+
+
+# ------------------------------------------------------------------ PEP 709 (CPython 3.12) capture of inlined comprehension names
+
+def pep709_captures(root):
+    """CPython 3.12 compiles list, set and dict comprehensions inline in the function that contains them.  symtable.c copies the
+    comprehension's symbols into the function's table when the function has no symbol of that name yet (first comprehension
+    wins); a name that arrives as a comprehension *local* and is free in any child scope becomes a cell of the function, so the
+    child scope is bound to the comprehension's variable instead of the binding further out (observed on 3.12.1: NameError
+    'cannot access free variable').  Returns the set of (function path, name) where that happens; empty before 3.12."""
+    import sys
+    caps = set()
+    if sys.version_info < (3, 12):
+        return caps
+
+    def inlined(c, parent):
+        return c.kind == 'comp' and not isinstance(c.node, ast.GeneratorExp) and parent.kind != 'class'
+
+    def analyze(sc):
+        own = set(sc.bound) | set(sc.used) | sc.global_decl | sc.nonlocal_decl
+        sym = {}
+        for n in own:
+            if n in sc.global_decl:
+                sym[n] = 'global'
+            elif n in sc.nonlocal_decl:
+                sym[n] = 'free'
+            elif n in sc.bound:
+                sym[n] = 'local'
+            else:
+                sym[n] = 'free'
+        from_comp = set()
+        newfree = set()
+        for c in sc.children:
+            cf = analyze(c)
+            if inlined(c, sc):
+                for k, v in c._sym.items():
+                    if k not in sym:
+                        sym[k] = v
+                        if v == 'local':
+                            from_comp.add(k)
+            newfree |= cf
+        if sc.kind in FUNC_LIKE:
+            for n in from_comp:
+                if n in newfree:
+                    caps.add((sc.path, n))
+            free = set(n for n, v in sym.items() if v == 'free') | set(n for n in newfree if sym.get(n) not in ('local', 'global'))
+            for n in free:
+                sym.setdefault(n, 'free')       # update_symbols: unresolved free names of children are recorded as FREE
+        elif sc.kind == 'class':
+            free = set(n for n, v in sym.items() if v == 'free') | newfree
+        else:
+            free = set()
+        sc._sym = sym
+        return free
+
+    analyze(root)
+    return caps
